@@ -152,7 +152,9 @@ def run_jobs(args, seed, jobs, outdir, known_path, legs_by_name):
                    args.tier, "--child", "%s:%d:%d" % (leg, i, n), "--out",
                    out, "--known", known_path]
             log = open(out + ".log", "w")
-            p = subprocess.Popen(cmd, cwd=ROOT, env=env, stdout=log,
+            env_leg = dict(env, **legs_by_name[leg].env) \
+                if legs_by_name[leg].env else env
+            p = subprocess.Popen(cmd, cwd=ROOT, env=env_leg, stdout=log,
                                  stderr=subprocess.STDOUT)
             running.append((p, leg, i, out, log, time.monotonic()))
         time.sleep(0.05)
@@ -312,9 +314,13 @@ def replay_main(args, seed):
     with open(args.replay) as f:
         rep = json.load(f)
     leg = legs_by_name[rep["leg"]]
-    if leg.optimize and not sys.flags.optimize:
-        os.execv(sys.executable, [sys.executable, "-O", "-m", "vlib.cli"]
-                 + sys.argv[1:])
+    need_env = dict((k, v) for k, v in leg.env.items()
+                    if os.environ.get(k) != v)
+    if (leg.optimize and not sys.flags.optimize) or need_env:
+        os.execve(sys.executable, [sys.executable]
+                  + (["-O"] if leg.optimize else [])
+                  + ["-m", "vlib.cli"] + sys.argv[1:],
+                  dict(os.environ, **need_env))
     accts = {}
     active, _, lines = regress_phase(args.prop, mod, legs_by_name, accts)
     for ln in lines:
